@@ -303,6 +303,7 @@ def oracleFor (prop : String) (c : Cfg) (t : Spec.Trace) : Option Bool :=
   | "C12" => some (Spec.oracleC12 (kindOf c) c.cap c.ttl c.tti c.params.weigh Gen.UNSYNC_EVICTION_BATCH_SIZE t &&
       (match kindOf c, c.cap with
        | .unsync, some cap => Spec.growthExpC12 cap c.ttl c.tti Gen.UNSYNC_EVICTION_BATCH_SIZE t
+       | .sync, some cap => Spec.growthC12Sync cap c.ttl c.tti c.params.weigh Gen.SYNC_EVICTION_BATCH_SIZE t
        | _, _ => true))
   | "C11" => some (Spec.oracleC11 t)
   | "C14" => some (Spec.onlyGetC14 (Spec.noFreq t))
